@@ -300,6 +300,15 @@ func (j *Job) start() error {
 	// Get the job's current checkpoint which may be nil
 	ckpt := j.snapshotStore.CurrentCheckpoint()
 
+	// The source splitter of the previous assembly must not outlive it: it would
+	// keep discovering splits and hand them to the new assembly as well, next to
+	// the new splitter.
+	if j.sourceSplitter != nil {
+		if err := j.sourceSplitter.Close(); err != nil {
+			j.log.Warn("closing the previous source splitter failed", "err", err)
+		}
+	}
+
 	// Create the source splitter
 	j.sourceSplitter = j.config.Sources[0].NewSourceSplitter(j.assembly.SourceRunnerIDs(), connectors.SourceSplitterHooks{
 		AssignSplits: func(assignments map[string][]*workerpb.SourceSplit) {
